@@ -160,7 +160,9 @@ func TestC09(t *testing.T) {
 func TestC09Collide(t *testing.T) {
 	rapid.Check(t, func(rt *rapid.T) {
 		frag := func(name string, allowEmpty bool) string {
-			pool := []string{"a", "b", "ab", "1", "c", "A"}
+			// includes bytes an encoder of the group key might use as separator,
+			// terminator, length prefix or escape
+			pool := []string{"a", "b", "ab", "1", "c", "A", "\x00", "\x00b", "a\x00", ":", "1:", "2:a", "|", ",", "\\", "\xff", "\x01", " ", "0"}
 			if allowEmpty {
 				pool = append(pool, "")
 			}
